@@ -167,7 +167,13 @@ class Explorer:
         if name in module.classes:
             return self._class_ref(module, name)
         if name in module.consts:
-            return self.eval_const(run, module, name)
+            try:
+                return self.eval_const(run, module, name)
+            except EngineError as e:
+                if run.spec:
+                    raise
+                # module-level state that the engine cannot model and the contract does not declare
+                return Conc(("unmodelled_global", name, str(e)))
         if name in module.imports:
             imp = module.imports[name]
             if imp[0] == "module":
@@ -310,6 +316,13 @@ class Explorer:
                 objnode = ast.Subscript(value=objnode.func.value, slice=objnode.args[0], ctx=ast.Load(), lineno=node.lineno, col_offset=node.col_offset)
             obj = run.ev(objnode, fr)
             attr = node.func.attr
+            if isinstance(obj, Conc) and isinstance(obj.obj, tuple) and obj.obj[0] == "unmodelled_global":
+                if attr in MUTATORS:
+                    # the function changes module-level state that its contract's frame (`modifies` / `globals`) does not list
+                    run.oblige(f"frame#{obj.obj[1]}", z3.BoolVal(False), kind="frame",
+                               note=f"{self.c.fq} mutates the module-level object `{obj.obj[1]}` ({attr} at line {node.lineno}), which is outside the frame of its contract")
+                    raise PathEnd()
+                raise EngineError(f"use of unmodelled module-level object {obj.obj[1]}: {obj.obj[2]}")
             if isinstance(obj, Val) and isinstance(obj.ty, TDict) and attr == "setdefault" and len(node.args) == 2:
                 key = run.ev(node.args[0], fr)
                 dflt = run.ev_typed(node.args[1], fr, obj.ty.v)
